@@ -547,8 +547,18 @@ var rich = profile{
 	floats:     []string{"1.5", "-0.0", "1e10", "1E+5", "1.25e-3", "0.000", "-7E-0", "6.02e23"},
 	strs: []string{"", "s", "hello world", "a\"b", "back\\slash", "line1\nline2", "tab\there", "é☃漢", "/slash/", "\u0000\b\f\r", "#not a comment", "a\nb\nc", "{}[]()$!:=@|...", "  lead", "trail  ", "x\n\ny",
 		// block-string material: three quotes in a row (spelled \""" in a block string), lone quotes, backslashes
-		"a\"\"\"b", "\"\"\"", "say \"\"\"hi\"\"\" twice", "\"\"\"\"x", "q\"uo\"\"te", "l1 \"\"\"\nl2", "c:\\dir\\n \\u0041"},
+		"a\"\"\"b", "\"\"\"", "say \"\"\"hi\"\"\" twice", "\"\"\"\"x", "q\"uo\"\"te", "l1 \"\"\"\nl2", "c:\\dir\\n \\u0041",
+		// every hexadecimal letter in a \u spelling (U+00AB U+00CD U+00EF), and punctuator-valued strings
+		"«Íï", "]", "}", ")"},
 }
+
+// richPunctStrings: the rich alphabet with string values that are punctuators or keywords — a list element
+// "]", an object field value "}", an argument ")" … must stay strings.
+var richPunctStrings = func() profile {
+	p := rich
+	p.strs = []string{"]", "}", ")", ":", "{", "[", "(", "!", "=", "@", "$", "...", "|", "&", "on", "fragment", "query", "true", "null", "]]", "} }"}
+	return p
+}()
 
 type gen struct {
 	c      Chooser
